@@ -241,6 +241,15 @@ def mon_C07(h):
             clock += ev.get("d", 0)
         if ev["t"] == "schedule" and st["res"].startswith("job:"):
             created[int(st["res"][4:])] = clock
+            # replace strategy (definition unchanged since the start): the burst converges to the newest request
+            nid = int(st["res"][4:])
+            nj = _jobs(sn).get(nid)
+            d = _pipe(h, cur[k + 1], nj["pipe"]) if nj else None
+            if d and d.get("replace") and not reloaded[k + 1]:
+                older = [i for i in _waiting_ids(sn, nj["pipe"]) if i != nid]
+                if older:
+                    bad.append((k, "pipeline %d (queue_strategy replace, queue_limit %s): after job %d was accepted the older job(s) %s are still waiting: the burst does not converge to the newest request"
+                                % (nj["pipe"], d.get("qlimit"), nid, older)))
         pj = _jobs(prev)
         for j in sn["jobs"]:
             was = pj.get(j["id"])
@@ -467,6 +476,8 @@ def mon_C15(h):
             accepted.add(int(st["res"][4:]))
         if ev["t"] in ("save", "restart", "shutdown_return", "shutdown"):
             removed |= accepted - {j["id"] for j in sn["jobs"]}
+        if sn.get("http"):
+            bad.append((k, "the HTTP API (GET /pipelines/jobs, /job/detail) differs from the runner state: " + sn["http"]))
         present = {j["id"] for j in sn["jobs"]}
         for i in accepted - removed:
             if i not in present:
